@@ -34,7 +34,9 @@ fn prefix(v: &Value, variant: u32) -> Option<Prefix> {
             Some(Prefix::new(IpAddr::V4(Ipv4Addr::from(addr)), len).unwrap())
         }
         6 => {
-            let (addr, len) = match variant { 0 => (a << 126, l), 1 => ((0x2001_0db8u128 << 96) | (a << 94), 32 + l), _ => ((0x2001_0db8u128 << 96) | 0xff00 | a, 126 + l) };
+            // (variant 3: IPv4-mapped IPv6 addresses, ::ffff:192.0.2.x/126..128 - still IPv6 prefixes)
+            let (addr, len) = match variant { 0 => (a << 126, l), 1 => ((0x2001_0db8u128 << 96) | (a << 94), 32 + l), 2 => ((0x2001_0db8u128 << 96) | 0xff00 | a, 126 + l),
+                                              _ => ((0xffffu128 << 32) | 0xC000_0200 | a, 126 + l) };
             Some(Prefix::new(IpAddr::V6(Ipv6Addr::from(addr)), len).unwrap())
         }
         _ => None,
@@ -93,7 +95,7 @@ fn payload_fields(p: &Payload) -> String {
 }
 
 /// A file whose assertion lists have several entries around `item`, with repeats, and the items they stand for.
-fn multi_assertions(item: &Payload) -> (SlurmFile, Vec<Payload>) {
+fn multi_assertions(item: &Payload) -> (SlurmFile, Vec<String>) {
     let mut a = LocallyAddedAssertions::new(Vec::new(), Vec::new());
     let mut want = Vec::new();
     let p4 = MaxLenPrefix::new(Prefix::new("192.0.2.0".parse().unwrap(), 24).unwrap(), Some(26)).unwrap();
@@ -103,8 +105,8 @@ fn multi_assertions(item: &Payload) -> (SlurmFile, Vec<Payload>) {
     let kid = |b: u8| KeyIdentifier::from([b; 20]);
     let mut keys = vec![(kid(1), Asn::from_u32(64496), info(1)), (kid(1), Asn::from_u32(64497), info(1)), (kid(2), Asn::from_u32(64496), info(2)), (kid(1), Asn::from_u32(64496), info(1))];
     let prov = |v: &[u32]| ProviderAsns::try_from_iter(v.iter().map(|x| Asn::from_u32(*x))).unwrap();
-    let mut aspas = vec![(Asn::from_u32(64500), prov(&[65000, 65001])), (Asn::from_u32(64500), prov(&[65002])), (Asn::from_u32(64501), prov(&[65000, 65001])),
-                         (Asn::from_u32(64500), prov(&[65000, 65001]))];
+    let mut aspas = vec![(Asn::from_u32(64500), prov(&[65001, 65000, 65001])), (Asn::from_u32(64500), prov(&[65002])), (Asn::from_u32(64501), prov(&[65000, 65001])),
+                         (Asn::from_u32(64500), prov(&[65001, 65000, 65001]))];
     match item {
         Payload::Origin(o) => { origins.insert(1, (o.prefix, o.asn)); origins.push((o.prefix, o.asn)); }
         Payload::RouterKey(k) => { keys.insert(1, (k.key_identifier, k.asn, k.key_info.clone())); keys.push((k.key_identifier, k.asn, k.key_info.clone())); }
@@ -112,16 +114,16 @@ fn multi_assertions(item: &Payload) -> (SlurmFile, Vec<Payload>) {
     }
     for (m, asn) in origins {
         a.prefix.push(PrefixAssertion::new(m, asn, None));
-        want.push(Payload::origin(m, asn));
+        want.push(format!("origin {} {:?} {}", m.prefix(), m.max_len(), asn));
     }
     for (k, asn, i) in keys {
         a.bgpsec.push(BgpsecAssertion::new(asn, k, Base64KeyInfo::try_from(i.as_slice().to_vec()).unwrap(), None));
-        want.push(Payload::router_key(k, asn, i));
+        want.push(format!("key {} {} {:?}", k, asn, i.as_slice()));
     }
     let mut list = Vec::new();
     for (c, p) in aspas {
         list.push(AspaAssertion::new(c, p.clone(), None));
-        want.push(Payload::aspa(c, p));
+        want.push(format!("aspa {} {:?}", c, p.iter().collect::<Vec<_>>()));
     }
     a.aspa = Some(list);
     (SlurmFile::new(ValidationOutputFilters::new(Vec::new(), Vec::new()), a), want)
@@ -146,7 +148,7 @@ pub fn replay(args: &[String]) {
     let mut s = Summary::new();
     for c in &cases {
         let exp = c["drop"].as_bool().unwrap();
-        for variant in 0..3u32 {
+        for variant in 0..4u32 {
             let case = json!({"case": c, "variant": variant});
             let r = guarded(|| -> Result<(), (String, String)> {
                 let (file, item) = build_file(c, variant, variant == 1);
@@ -192,6 +194,17 @@ pub fn replay(args: &[String]) {
                         if a.customer != b.customer || a.providers != b.providers {
                             return Err(("assertion:payload".into(), "aspa fields differ".into()));
                         }
+                        // the provider list exactly as the assertion holds it (the expected item above went through the library's
+                        // own constructor, which must not be what defines "its fields")
+                        let raw: Vec<u32> = if variant == 0 { vec![65000, 65001] } else { vec![65001, 65000, 70000, 65001] };
+                        let got: Vec<u32> = a.providers.iter().map(|x| x.into_u32()).collect();
+                        let held: Vec<u32> = file.assertions.aspa.as_ref().unwrap()[0].provider_asns.iter().map(|x| x.into_u32()).collect();
+                        if held != raw {
+                            return Err(("assertion:held".into(), format!("the assertion holds providers {held:?}, it was given {raw:?}")));
+                        }
+                        if got != raw {
+                            return Err(("assertion:payload".into(), format!("the ASPA item lists providers {got:?}, the assertion {raw:?}")));
+                        }
                     }
                     _ => return Err(("assertion:payload".into(), "payload kind differs".into())),
                 }
@@ -200,7 +213,7 @@ pub fn replay(args: &[String]) {
                 if variant == 0 {
                     let (multi, want) = multi_assertions(&item);
                     let mut got: Vec<String> = multi.assertions.iter_payload().map(|p| payload_fields(&p)).collect();
-                    let mut want: Vec<String> = want.iter().map(payload_fields).collect();
+                    let mut want: Vec<String> = want;
                     got.sort();
                     want.sort();
                     if got != want {
